@@ -18,6 +18,10 @@ NONNULL = {
 }
 
 # states in which the next update restarts the epoch (prologue test)
+# warm-up quantities that intentionally are not restarted by reset(), one reason each
+EPOCH_LOCAL_EXEMPT = {
+    "PCACD": {"_build_reference_and_test": "set to True together with every store of 'drift' (PAIR rule), cleared when the windows are full again"},
+}
 RESTART_STATES = {"ADWIN": ("drift", "warning"), "ADWINAccuracy": ("drift", "warning"), "PCACD": ("drift", "warning")}
 
 HDM = ("HDDDM", "CDBD")
@@ -363,6 +367,28 @@ def clause_warmup(ctx, dets):
             ctx.ob("GRD-warmup", cname + ".update", "guard of store %r%s" % (value, label), not missing,
                    "missing warm-up guard(s): %s" % "; ".join(q.short(m, 120) for m in missing) if missing else
                    "guards include " + "; ".join(q.short(s, 80) for s in specs), site)
+        epoch_local(ctx, cname, specs)
+
+    seen_local = set()
+
+    def epoch_local(ctx, cname, specs):
+        """The minimum is a minimum *of the current epoch*: whatever the warm-up guard counts restarts in reset()."""
+        from . import c02
+        conf, _state = c02.config_attrs(ctx, cname)
+        tot, since = q.counters(ctx.prog, ctx.prog.cls(cname))
+        trr = ctx.trace(cname, "reset", assume={"detect_batch": 3} if cname in HDM else None)
+        fin = trr.final.attrs if trr.final is not None else {}
+        for s_ in specs:
+            for a in T.walk(s_):
+                if a[0] != "attr" or a[1] in conf or a[1] in (tot, since) or (cname, a[1]) in seen_local:
+                    continue
+                if a[1] in EPOCH_LOCAL_EXEMPT.get(cname, {}):
+                    continue
+                seen_local.add((cname, a[1]))
+                v = fin.get(a[1])
+                ok = v is not None and not T.mentions(v, lambda z, n=a[1]: z == ("attr", n))
+                ctx.ob("GRD-warmup", cname + ".reset", "the quantity %s the warm-up guard counts restarts with the epoch" % a[1], ok,
+                       "reset() leaves self.%s %s: after a drift the minimum would be measured from the previous epoch" % (a[1], "untouched" if v is None else "depending on its old value"))
 
     base = {"_drift_state": None}
     # PageHinkley / CUSUM: ssr > burn_in
